@@ -185,6 +185,30 @@ fn fresh_scripted_root(rng: &mut Rng, sel: u64) -> Option<(GameState, &'static s
     Some((g, label))
 }
 
+
+/// A state at step 3 (or earlier if the model finds no further step) reached from a random position by
+/// steps chosen with the MODEL's legal sets - the engine is only asked to apply them, so the turn has
+/// never been queried and has no successor turn yet.
+fn fresh_step3_root(rng: &mut Rng) -> Option<GameState> {
+    use crate::model::*;
+    let (b, gold, mv) = if rng.chance(1, 2) { gen::w2(rng) } else { gen::w1(rng) };
+    let mut g = inject(&b, gold, mv);
+    let mut cur = b;
+    let mut pend = Pend::None;
+    for st in 0..3u8 {
+        let cands: Vec<Code> = cur.legal(gold, st, pend).iter().filter(|c| is_step(*c)).collect();
+        if cands.is_empty() {
+            return None;
+        }
+        let c = cands[rng.below(cands.len())];
+        let a = cur.apply(gold, pend, code_sq(c), code_dir(c))?;
+        cur = a.board;
+        pend = a.pend;
+        g = g.take_action(&code_act(c));
+    }
+    Some(g)
+}
+
 fn setup_root(rng: &mut Rng) -> GameState {
     let mut g = GameState::initial();
     let n = rng.below(32);
@@ -365,6 +389,47 @@ pub fn c18(cfg: &Cfg) -> i32 {
                             s.violate("C18", clause, format!("C18|fresh|{}|{}", label, k), format!("fresh round {} ({} root, history {} entries, {} threads released together onto a state of a turn nobody had queried): {} threads disagree with the sequential expansion computed afterwards, root_changed={}, first mismatch (path, expected, got)={:?}", k, label, hist, threads, rep.mismatching_threads, rep.root_changed, rep.first_mismatch), json!({"kind": "threads", "observer": "fresh_round", "round": k, "threads": threads, "seed": cfg.seed, "root": root.to_string()}));
                         }
                     }
+                    // simultaneous children: different turn-ending actions of a never-expanded state at the same instant
+                    for k in 0..cfg.n(300, 9000) {
+                        let root = match if k % 3 == 0 { fresh_scripted_root(&mut rng, k / 3).map(|x| x.0) } else { fresh_step3_root(&mut rng) } {
+                            Some(r) => r,
+                            None => continue,
+                        };
+                        let n = [4usize, 8, 12, 16][(k % 4) as usize];
+                        let (bad, cmp) = c18bare::simultaneous_children(&root, n);
+                        if cmp == 0 {
+                            continue;
+                        }
+                        s.count("simultaneous_children_rounds");
+                        s.add("simultaneous_children_compared", cmp as u64);
+                        s.add("nodes_compared", cmp as u64);
+                        if bad > 0 {
+                            s.violate("C18", "concurrent_result_ne_sequential", format!("C18|simultaneous_children|{}", k), format!("round {}: {} of {} children created at the same instant from one never-expanded state (different offered actions, {} threads) differ from the sequentially created ones (whole history compared)", k, bad, cmp, n), json!({"kind": "threads", "observer": "simultaneous_children", "round": k, "threads": n, "seed": cfg.seed, "root": root.to_string()}));
+                        }
+                    }
+                    // history duel: the same state with two different pasts (same hash, same history length, same
+                    // newest entry), each hammered by its own threads at the same time
+                    for k in 0..cfg.n(40, 1200) {
+                        let root = match fresh_scripted_root(&mut rng, k) {
+                            Some(r) => r.0,
+                            None => continue,
+                        };
+                        let twins = crate::decoy::history_decoys(&root);
+                        if twins.is_empty() {
+                            continue;
+                        }
+                        let mut groups: Vec<Vec<GameState>> = vec![vec![root]];
+                        for t in twins {
+                            groups.push(vec![t]);
+                        }
+                        let (bad, n) = c18bare::duel_round(&groups, 4 + (k as usize % 3) * 4, 60);
+                        s.count("history_duel_rounds");
+                        s.add("history_duel_queries", n as u64);
+                        s.add("nodes_compared", n as u64);
+                        if bad > 0 {
+                            s.violate("C18", "concurrent_result_ne_sequential", format!("C18|history_duel|{}", k), format!("history duel {}: {} of {} answers differ from the sequential ones while other threads query the same state with another past (same hash, same history length, same newest entry)", k, bad, n), json!({"kind": "threads", "observer": "history_duel", "round": k, "seed": cfg.seed}));
+                        }
+                    }
                     // migration rounds: states built on one thread are continued on another
                     for k in 0..cfg.n(40, 1200) {
                         let n = 4 + (k as usize % 3) * 2;
@@ -538,7 +603,7 @@ pub fn c18(cfg: &Cfg) -> i32 {
         evaluations_counter: "nodes_compared",
         rule: "W12. Observer 1 (build-time): a probe crate requiring Send + Sync of 13 public types (and Arc/Vec/spawn uses) must compile. Observer 2: roots after setup + 0..40 turns, mid-turn roots, W3 roots with shared histories, setup-phase roots, scripted third-repetition roots at step 3 and W5b roots where every turn-ender is withheld (several history lookups with different answers per query; these roots are additionally queried 40 times per thread) are expanded to depth 1-2 by 4..32 threads (shared via Arc, borrowed with concurrent clone/drop threads, or moved clones) in permuted orders with seeded yields/spins between engine calls; every thread's (path, fingerprint) vector must equal the sequential expansion and a deep fingerprint of the root (incl. every history entry) must be unchanged; lists sharing tails of up to 180 000 nodes are dropped from 4..15 threads, and 2-4 threads drop the last handles of one list at the same instant (spin barrier) while drop probes measure the stack span over which the nodes are freed. Pool rounds: the turn trees (depth 3, up to 4 000 different states) below several roots are queried by 8-24 threads at once, each thread in its own order, and every answer is compared with the sequential one (cross-talk between different states and queries); the roots include 'sibling games' that reach the same position after the same number of turns with different histories. Observer 2b: fresh native processes in which 4-16 threads make the very first engine calls at the same instant (cold start: lazily initialised process-wide state) must agree with the sequential result. Observer 3: the same bare workload (no shared monitor state) under ThreadSanitizer (-Zbuild-std) and under Miri -Zmiri-many-seeds. distinct_nontrivial = distinct thread completion orders observed natively.".into(),
         assumptions: vec!["'under every interleaving' is sampled (rounds, TSan runs, Miri seeds), not enumerated".into(), "the Send + Sync half is decided by the compiler on a probe crate (a build-time observation)".into(), "TSan/Miri see only the code the bare workload reaches (all public queries + take_action + clone/drop)".into()],
-        floors: vec![floor("rounds", 5000, 150_000), floor("nodes_compared", 500_000, 20_000_000), floor("distinct_thread_completion_orders", 500, 5000), floor("tsan_runs", 12, 200), floor("tsan_nodes_compared", 10_000, 100_000), floor("miri_seeds_completed", 12, 96), floor("autotrait_probe_builds", 1, 1), floor("longest_shared_history", 20, 30), floor("rounds_root_third_repetition_at_step3", 500, 15_000), floor("rounds_root_saturated_all_withheld", 400, 12_000), floor("simultaneous_last_owner_drop_rounds", 500, 5000), floor("cold_start_processes", 64, 1000), floor("pool_rounds", 20, 400), floor("pool_rounds_with_sibling_games", 15, 300), floor("sibling_duel_queries", 50_000, 1_000_000), floor("pool_states_queried_concurrently", 200_000, 4_000_000), floor("fresh_rounds", 100, 4000), floor("fresh_rounds_history_ge_16", 80, 3000), floor("fresh_rounds_history_ge_200", 20, 800), floor("migration_rounds", 100, 1000), floor("migrated_states_successors_compared", 15_000, 400_000)],
+        floors: vec![floor("rounds", 5000, 150_000), floor("nodes_compared", 500_000, 20_000_000), floor("distinct_thread_completion_orders", 500, 5000), floor("tsan_runs", 12, 200), floor("tsan_nodes_compared", 10_000, 100_000), floor("miri_seeds_completed", 12, 96), floor("autotrait_probe_builds", 1, 1), floor("longest_shared_history", 20, 30), floor("rounds_root_third_repetition_at_step3", 500, 15_000), floor("rounds_root_saturated_all_withheld", 400, 12_000), floor("simultaneous_last_owner_drop_rounds", 500, 5000), floor("cold_start_processes", 64, 1000), floor("pool_rounds", 20, 400), floor("pool_rounds_with_sibling_games", 15, 300), floor("sibling_duel_queries", 50_000, 1_000_000), floor("pool_states_queried_concurrently", 200_000, 4_000_000), floor("fresh_rounds", 100, 4000), floor("fresh_rounds_history_ge_16", 80, 3000), floor("fresh_rounds_history_ge_200", 20, 800), floor("migration_rounds", 100, 1000), floor("simultaneous_children_rounds", 200, 6000), floor("history_duel_rounds", 30, 900), floor("migrated_states_successors_compared", 15_000, 400_000)],
         level: "exploration",
         exhaustive: None,
         extra,
